@@ -506,6 +506,18 @@ def generate(seed, prop, tier, index=0):
             s = rng.choice(fsites)
             v = rng.choice([1, 1, 2, rng.randint(1, 15), "*"])
             add(s, v, ["raise"])
+        if rng.random() < 0.15:
+            # aimed: a callback that raises every time, an overrun (so that the loop catches up with iterations less than a
+            # period apart) and the FMS cable flickering at consecutive wake-ups - the decision swallow/crash must follow the
+            # FMS state at the very moment of each exception
+            s = rng.choice(sites["execute"] + sites["periodic"])
+            add(s, "*", ["raise"])
+            w = rng.randint(2, max(3, cap - 3))
+            add(rng.choice(sites["periodic"] + sites["execute"]), w, ["stall", rng.choice([2, 3, 5]) * p])
+            fms_now = 1
+            for j in range(rng.choice([2, 3, 5])):
+                fms_now = 1 - fms_now if rng.random() < 0.7 else fms_now
+                add("wait", w + j, ["ds", 1, rng.choice(["teleop", "auto"]), fms_now])
     if prop == "C10":
         targets = [(c["name"], r["attr"], r["default"]) for c in cfg["components"] for r in c["resets"]]
         plain = [(c["name"], a["attr"], a["default"]) for c in cfg["components"] for a in c["plain_attrs"]]
